@@ -28,8 +28,9 @@ def _spelled_algorithms():
         except Exception: pass
     return out
 KMS = KMS + [(a, {}) for a in _spelled_algorithms()]
-VALS = ['1', '2.5', "'a'", 'None', '(1, 2)', '-7', "'x y'", '0.1', '[1, 2]', 'True', '10**12', "'z'", "'L' * 250"]
-VALS2 = [v for v in VALS if v not in ('[1, 2]', "'L' * 250")]        # (a 250-character argument makes keys no file name can hold)
+VALS = ['1', '2.5', "'a'", 'None', '(1, 2)', '-7', "'x y'", '0.1', '[1, 2]', 'True', '10**12', "'z'", "'L' * 250",
+        "Decimal('2.665')", 'Fraction(1, 3)', '2.675', "{'p': 1, 'q': 2, 'r': 3}"]      # (no sets: the repr of a set of strings is itself process-dependent - outside the property)
+VALS2 = [v for v in VALS if v not in ('[1, 2]', "'L' * 250", "{'p': 1, 'q': 2, 'r': 3}", "Decimal('2.665')", 'Fraction(1, 3)')]        # (a 250-character argument makes keys no file name can hold)
 SEEDS = ['0', '1', '4242', 'random']
 NITEMS = {'quick': 40, 'thorough': 400}
 NSESS = {'quick': 18, 'thorough': 150}
@@ -82,7 +83,7 @@ def explore(prop, tier, off=0):
             km = KMS[i % len(KMS)]
             ign = r.choice([[], [], [], ['y'], [0], ['*'], ['q', 'p'], ['**'], ['alpha', 'beta']]) if func in ('f1', 'f2') else []
             calls = [gen_call(r, func) for _ in range(5)]
-            items.append(dict(func=func, km=km, ignore=ign, calls=calls))
+            items.append(dict(func=func, km=km, ignore=ign, calls=calls, tol=(2 if i % 4 == 1 else None), deep=(i % 8 == 1)))
         # each session sees the same calls, with its own keyword order and its own process noise
         jobs = []
         for si, hs in enumerate(SEEDS):
